@@ -131,13 +131,16 @@ pub fn definitional_blocks(ctx: &mut Ctx, fam: Family, dir: Direction) {
     }
 
     // what crossed the mode/cipher boundary. Only what the definition itself forces is
-    // demanded: the values the recurrence needs must have been presented to the cipher,
-    // in order, in the direction the definition names (extra calls are tolerated).
+    // demanded: the values the recurrence needs must have been presented to the cipher in the
+    // direction the definition names (extra calls are tolerated). The *order* is demanded only
+    // where the data dependency forces it (encryptors and OFB: the next cipher input does not
+    // exist before the previous output); a decryptor knows every ciphertext block up front and
+    // may hand them to the cipher in any order (back to front, batches aligned to the end, ...).
     if ctx.cfg.spied {
+        // (cipher calls made during construction count: *when* E(IV) is computed - eagerly in the
+        // constructor or lazily at first use - is not part of any mode's definition)
         let mut all: Vec<Ev> = Vec::new();
-        if fam == Family::Cfb {
-            all.extend(ctor_evs.iter().cloned());
-        }
+        all.extend(ctor_evs.iter().cloned());
         all.extend(f.evs.iter().flatten().cloned());
         let want_dir = match (fam, dir) {
             (Family::Cbc | Family::Pcbc | Family::Ige, Direction::Dec) => Dir::D,
@@ -187,18 +190,27 @@ pub fn definitional_blocks(ctx: &mut Ctx, fam: Family, dir: Direction) {
                 }
             }
         }
+        let order_forced = dir == Direction::Enc || fam == Family::OfbBlk;
+        let presented: std::collections::HashSet<&[u8]> =
+            if order_forced { Default::default() } else { all.iter().filter(|e| e.dir == want_dir).map(|e| e.inp.as_slice()).collect() };
         let mut pos = 0;
         for (i, want_in) in expected.iter().enumerate() {
-            match all[pos..].iter().position(|e| e.dir == want_dir && &e.inp == want_in) {
-                Some(k) => pos += k + 1,
-                None => {
+            let found = if order_forced {
+                all[pos..].iter().position(|e| e.dir == want_dir && &e.inp == want_in).map(|k| pos += k + 1).is_some()
+            } else {
+                presented.contains(want_in.as_slice())
+            };
+            match found {
+                true => {}
+                false => {
                     return ctx.violation(
                         &format!("{}/cipher-input/{}", ctx.prop, name),
                         format!(
-                            "step {}: the recurrence needs {:?}({}) but the cipher was never asked for it (in order); {} cipher calls observed",
+                            "step {}: the recurrence needs {:?}({}) but the cipher was never asked for it{}; {} cipher calls observed",
                             i,
                             want_dir,
                             hex_short(want_in),
+                            if order_forced { " (in order)" } else { "" },
                             all.len()
                         ),
                     );
